@@ -2038,7 +2038,7 @@ fn main() {
         prober: &prober,
         minimal: BTreeMap::new(),
         threads: vcore::ncores(),
-        deadline: Instant::now() + Duration::from_secs(tier.pick(25, 150)),
+        deadline: Instant::now() + Duration::from_secs_f64(tier.pick(75.0, 150.0) * vcore::budget_scale()),
         fast_timeout_ms: 300,
         cut_short: 0,
         hang_stage: HashMap::new(),
